@@ -1871,10 +1871,19 @@ fn verify_nsec(
     // For a no data response with a directly matching NSEC record, we just need to verify the NSEC
     // type set does not contain the query type or CNAME.
     if let Some((_, nsec_data)) = nsecs.iter().find(|(name, _)| &query.name == *name) {
-        return if nsec_data.type_set().contains(query.query_type)
-            || nsec_data.type_set().contains(RecordType::CNAME)
-        {
+        let types = nsec_data.type_set();
+        return if types.contains(query.query_type) || types.contains(RecordType::CNAME) {
             nsec1_yield(Proof::Bogus, "direct match, record type should be present")
+        } else if types.contains(RecordType::NS)
+            && !types.contains(RecordType::SOA)
+            && query.query_type != RecordType::DS
+        {
+            // RFC 6840 4.1: the NSEC at a delegation point comes from the parent side of the zone
+            // cut; apart from DS, the RRsets at that name belong to the child zone.
+            nsec1_yield(
+                Proof::Bogus,
+                "direct match is the parent-side NSEC of a zone cut, which only speaks for DS",
+            )
         } else if response_code == ResponseCode::NoError && !have_answer {
             nsec1_yield(Proof::Secure, "direct match")
         } else {
